@@ -12,7 +12,7 @@ const SPEC: Spec = Spec {
         "refint binary shift-subtract division is trusted; cross-checked against Python int on a transcript slice and self-checked by a = q*b + r on every pair",
         "x86_64 / 64-bit digits only (div_half path not built here)",
     ],
-    bounds_quick: "D1 Dense(S8,4)xDense(S8,3) (all APIs, 4 sign pairs); D2 every shift 0..63, one or two low digits, dividends Dense(S5,4); D3 Runs(S8,2,12)xRuns(S8,2,6); D4 constructed q*v+r for v in Dense(S8,3) normalised, q in Dense(S8,2), r in {0,1,v-1}, digit shifts 0..2; D5 zero divisor x pool; D6 scalar forms; D7 dense LCG digits, lengths <= 24 / <= 12, 3 x 10 members; D8 (Dense(S5,3)+lengths 3..12) x (Dense(S5,2)+lengths 3..8) through /= %= and the owning forms on operands with spare buffer capacity; D9 long operands: 300/100, 1100/3, 1100/1, 1100/1050, 1030/515, 200/199 digits x 3x3 shapes; D10 Dense(S16,3) x Dense(S16,2) (16-letter half-digit alphabet); D6b Dense(S5,3) x every 2^k-1, 2^k, 2^k+1 (k<128) as scalar divisor and dividend",
+    bounds_quick: "D1 Dense(S8,4)xDense(S8,3) (all APIs, 4 sign pairs); D2 every shift 0..63, one or two low digits, dividends Dense(S5,4); D3 Runs(S8,2,12)xRuns(S8,2,6); D4 constructed q*v+r for v in Dense(S8,3) normalised, q in Dense(S8,2), r in {0,1,v-1}, digit shifts 0..2; D5 zero divisor x pool; D6 scalar forms; D7 dense LCG digits, lengths <= 24 / <= 12, 3 x 10 members; D8 (Dense(S5,3)+lengths 3..12) x (Dense(S5,2)+lengths 3..8) through /= %= and the owning forms on operands with spare buffer capacity; D9 long operands: 300/100, 1100/3, 1100/1, 1100/1050, 1030/515, 200/199 digits x 3x3 shapes; D10 Dense(S16,3) x Dense(S16,2) (16-letter half-digit alphabet); D6c scalar matrix: 13 magnitudes x both signs x 30 edge scalars x 12 primitive types as divisor and dividend; D6b Dense(S5,3) x every 2^k-1, 2^k, 2^k+1 (k<128) as scalar divisor and dividend",
     bounds_thorough: "D1 Dense(S8,4)xDense(S8,4) (all APIs, 4 sign pairs) + Dense(S8,5)xDense(S8,3) (core forms); D2 as quick; D3 Runs(S8,3,12)xRuns(S8,2,8); D4; D5; D6; D7 lengths <= 48 / <= 24; D8 with lengths up to 20; D9 also 2100/1040, 4099/2, 2050/2049",
     hang_secs: 120,
     probes: Some(probes),
@@ -724,6 +724,148 @@ fn body(ctx: &mut Ctx) {
         let a: Vec<Op> = alpha::dense(&alpha::SIGMA16, 3).iter().map(|d| mk(d)).collect();
         let b: Vec<Op> = alpha::dense(&alpha::SIGMA16, 2).iter().map(|d| mk(d)).collect();
         product(ctx, "D10", &a, &b, false);
+    }
+    // D6c: the full scalar matrix: every primitive type x its extreme values as divisor and as dividend, / % /= %=, BigInt of
+    // both signs (truncating convention) and BigUint; a zero divisor must panic
+    if ctx.space("D6c") {
+        let mags: Vec<Vec<u64>> = vec![vec![], vec![1], vec![2], vec![0xffff_ffff], vec![alpha::H - 1], vec![alpha::H], vec![alpha::H + 1], vec![alpha::M], vec![0, 1], vec![alpha::M, alpha::H - 1], vec![alpha::M, alpha::M], vec![1, 0, 1], alpha::lcg_digits(5, 9)];
+        let edge: Vec<i128> = vec![0, 1, 2, -1, -2, 127, 128, -128, 255, 256, 32767, -32768, 65535, 65536, (1 << 31) - 1, 1 << 31, -(1 << 31), (1 << 32) - 1, 1 << 32, (1 << 63) - 1, 1 << 63, -(1 << 63), -(1 << 63) - 1, (1 << 64) - 1, 1 << 64, (1 << 64) + 1, -(1 << 64), i128::MAX, i128::MIN, i128::MIN + 1];
+        macro_rules! scalar_int {
+            ($T:ty, $tn:expr, $x:expr, $xi:expr, $t:expr) => {{
+                if let Ok(t) = <$T>::try_from($t) {
+                    let ti = Int::from_i128($t);
+                    let args = || vec![format!("x={}", $xi.to_hex()), format!("s={} ({})", $t, $tn)];
+                    if $t != 0 {
+                        let (q, r) = $xi.divrem_trunc(&ti);
+                        let v = call(ctx, || $x / t);
+                        expect_int(ctx, concat!("BigInt &x/", $tn), &args, v, &q);
+                        let v = call(ctx, || $x % t);
+                        expect_int(ctx, concat!("BigInt &x%", $tn), &args, v, &r);
+                        let v = call(ctx, || $x.clone() / t);
+                        expect_int(ctx, concat!("BigInt x/", $tn), &args, v, &q);
+                        let v = call(ctx, || $x.clone() % t);
+                        expect_int(ctx, concat!("BigInt x%", $tn), &args, v, &r);
+                        let v = call(ctx, || {
+                            let mut y = $x.clone();
+                            y /= t;
+                            y
+                        });
+                        expect_int(ctx, concat!("BigInt x/=", $tn), &args, v, &q);
+                        let v = call(ctx, || {
+                            let mut y = $x.clone();
+                            y %= t;
+                            y
+                        });
+                        expect_int(ctx, concat!("BigInt x%=", $tn), &args, v, &r);
+                    } else {
+                        let v = call(ctx, || $x / t);
+                        expect_panic(ctx, concat!("BigInt &x/0", $tn), &args, v);
+                        let v = call(ctx, || $x % t);
+                        expect_panic(ctx, concat!("BigInt &x%0", $tn), &args, v);
+                    }
+                    if !$xi.is_zero() {
+                        let (q, r) = ti.divrem_trunc($xi);
+                        let v = call(ctx, || t / $x);
+                        expect_int(ctx, concat!("BigInt ", $tn, "/&x"), &args, v, &q);
+                        let v = call(ctx, || t % $x);
+                        expect_int(ctx, concat!("BigInt ", $tn, "%&x"), &args, v, &r);
+                        let v = call(ctx, || t / $x.clone());
+                        expect_int(ctx, concat!("BigInt ", $tn, "/x"), &args, v, &q);
+                    } else {
+                        let v = call(ctx, || t / $x);
+                        expect_panic(ctx, concat!("BigInt ", $tn, "/&0"), &args, v);
+                        let v = call(ctx, || t % $x);
+                        expect_panic(ctx, concat!("BigInt ", $tn, "%&0"), &args, v);
+                    }
+                }
+            }};
+        }
+        macro_rules! scalar_uint {
+            ($T:ty, $tn:expr, $u:expr, $un:expr, $t:expr) => {{
+                if let Ok(t) = <$T>::try_from($t) {
+                    let tn = Nat::from_u128($t as u128);
+                    let args = || vec![format!("a={}", $un.to_hex()), format!("s={} ({})", $t, $tn)];
+                    if $t != 0 {
+                        let (q, r) = $un.divrem(&tn);
+                        let v = call(ctx, || $u / t);
+                        expect_nat(ctx, concat!("BigUint &a/", $tn), &args, v, &q);
+                        let v = call(ctx, || $u % t);
+                        expect_nat(ctx, concat!("BigUint &a%", $tn), &args, v, &r);
+                        let v = call(ctx, || {
+                            let mut y = $u.clone();
+                            y /= t;
+                            y
+                        });
+                        expect_nat(ctx, concat!("BigUint a/=", $tn), &args, v, &q);
+                        let v = call(ctx, || {
+                            let mut y = $u.clone();
+                            y %= t;
+                            y
+                        });
+                        expect_nat(ctx, concat!("BigUint a%=", $tn), &args, v, &r);
+                    } else {
+                        let v = call(ctx, || $u / t);
+                        expect_panic(ctx, concat!("BigUint &a/0", $tn), &args, v);
+                        let v = call(ctx, || $u.clone() % t);
+                        expect_panic(ctx, concat!("BigUint a%0", $tn), &args, v);
+                        let v = call(ctx, || {
+                            let mut y = $u.clone();
+                            y /= t;
+                            y
+                        });
+                        expect_panic(ctx, concat!("BigUint a/=0", $tn), &args, v);
+                    }
+                    if !$un.is_zero() {
+                        let (q, r) = tn.divrem($un);
+                        let v = call(ctx, || t / $u);
+                        expect_nat(ctx, concat!("BigUint ", $tn, "/&a"), &args, v, &q);
+                        let v = call(ctx, || t % $u.clone());
+                        expect_nat(ctx, concat!("BigUint ", $tn, "%a"), &args, v, &r);
+                    } else {
+                        let v = call(ctx, || t / $u);
+                        expect_panic(ctx, concat!("BigUint ", $tn, "/&0"), &args, v);
+                        let v = call(ctx, || t % $u);
+                        expect_panic(ctx, concat!("BigUint ", $tn, "%&0"), &args, v);
+                    }
+                }
+            }};
+        }
+        for (i, d) in mags.iter().enumerate() {
+            if !ctx.mine(i as u64) {
+                continue;
+            }
+            let un = Nat::from_digits(d);
+            let u = bu_nat(&un);
+            for neg in [false, true] {
+                let xi = Int::new(neg, un.clone());
+                let x = BigInt::from_biguint(if xi.is_zero() { Sign::NoSign } else if neg { Sign::Minus } else { Sign::Plus }, u.clone());
+                for &t in &edge {
+                    ctx.case();
+                    ctx.nontrivial(1);
+                    scalar_int!(i8, "i8", &x, &xi, t);
+                    scalar_int!(i16, "i16", &x, &xi, t);
+                    scalar_int!(i32, "i32", &x, &xi, t);
+                    scalar_int!(i64, "i64", &x, &xi, t);
+                    scalar_int!(i128, "i128", &x, &xi, t);
+                    scalar_int!(isize, "isize", &x, &xi, t);
+                    scalar_int!(u8, "u8", &x, &xi, t);
+                    scalar_int!(u16, "u16", &x, &xi, t);
+                    scalar_int!(u32, "u32", &x, &xi, t);
+                    scalar_int!(u64, "u64", &x, &xi, t);
+                    scalar_int!(u128, "u128", &x, &xi, t);
+                    scalar_int!(usize, "usize", &x, &xi, t);
+                    if !neg && t >= 0 {
+                        scalar_uint!(u8, "u8", &u, &un, t);
+                        scalar_uint!(u16, "u16", &u, &un, t);
+                        scalar_uint!(u32, "u32", &u, &un, t);
+                        scalar_uint!(u64, "u64", &u, &un, t);
+                        scalar_uint!(u128, "u128", &u, &un, t);
+                        scalar_uint!(usize, "usize", &u, &un, t);
+                    }
+                }
+            }
+            ctx.sample(|| format!("|x|={} (both signs) x {} edge scalars x 12 primitive types as divisor and dividend: / % /= %=, zero divisors must panic", un.to_hex(), edge.len()));
+        }
     }
     // D6b: every 2^k-1, 2^k, 2^k+1 (k < 128) as u128 / i128 scalar divisor and dividend
     if ctx.space("D6b") {
